@@ -249,6 +249,20 @@ def C17_numel_class(n: int) -> str:
     return "0" if n == 0 else "1" if n == 1 else "odd" if n % 2 else "even"
 
 
+def C17_compare(res: Result, where: str, tag: str, imports: str, fn: str, cases, meta, shard: int = 300):
+    """Model vs implementation on every case; for the first disagreement also print what the model computes."""
+    bad, errs = coqrun.run_cases(tag, imports, fn, cases, shard=shard)
+    for e in errs:
+        res.mismatches.append(Mismatch(where, "coqc error", None, e))
+    for n, i in enumerate(bad):
+        model = None
+        if n == 0:
+            out = coqrun.eval_terms(tag + "_show", imports, [f"({fn}) {cases[i][0]}"])
+            model = " ".join(out.split())[:1500]
+        res.mismatches.append(Mismatch(where, meta[i], cases[i][1][:1500], model))
+    res.traces_validated += len(cases)
+
+
 # =========================================================================== part A: tables, guard
 def check_tables(ctx: Ctx, res: Result):
     import torch
@@ -670,13 +684,8 @@ def check_layouts(ctx: Ctx, res: Result):
     # the carrier item size is the one the GENERATED source description gives for the dtype (C17_carrier)
     fn = ("(fun x : list Z * layout_input => let '(d, ((_, sh), so, st)) := x in "
           "match C17_carrier d with Some c => obs_as_memoryview ((c, sh), so, st) | None => VL [] end)")
-    bad, errs = coqrun.run_cases("C17_mv", IMP_LAYOUT + "From TS Require Import model.Dtype gen.DtypeGen proofs.C17Gen.\n",
-                                 fn, model_cases, shard=200)
-    for e in errs:
-        res.mismatches.append(Mismatch(where, "coqc error", None, e))
-    for i in bad:
-        res.mismatches.append(Mismatch(where, model_meta[i], model_cases[i][1], None))
-    res.traces_validated += len(model_cases)
+    C17_compare(res, where, "C17_mv", IMP_LAYOUT + "From TS Require Import model.Dtype gen.DtypeGen proofs.C17Gen.\n",
+                fn, model_cases, model_meta, shard=200)
     res.count("model.as_memoryview_cases", len(model_cases))
 
 
@@ -706,12 +715,7 @@ def check_ids(ctx: Ctx, res: Result):
         meta.append({"shape": list(t.shape), "strides": list(t.stride()), "offset": int(t.storage_offset()), "S": S_})
         res.case({"kind": "ids", **meta[-1]}, nontrivial=t.nelement() > 0)
         res.count("ids.kind", kind)
-    bad, errs = coqrun.run_cases("C17_ids", IMP_LAYOUT, "obs_elems_ids", cases, shard=300)
-    for e in errs:
-        res.mismatches.append(Mismatch(where, "coqc error", None, e))
-    for i in bad:
-        res.mismatches.append(Mismatch(where, meta[i], cases[i][1], None))
-    res.traces_validated += len(cases)
+    C17_compare(res, where, "C17_ids", IMP_LAYOUT, "obs_elems_ids", cases, meta)
 
 
 def check_from_memoryview(ctx: Ctx, res: Result):
@@ -760,12 +764,7 @@ def check_from_memoryview(ctx: Ctx, res: Result):
                                         {"kind": "from_mv", "dtype": C17_name(dtype), "mv": list(mv), "shape": shape}))
         cases.append((f"({term(es)}, {term(mv)}, {term(shape)})", val(obs)))
         meta.append({"esize": es, "dtype": C17_name(dtype), "mv": list(mv), "shape": shape})
-    bad, errs = coqrun.run_cases("C17_fm", IMP_LAYOUT, "obs_from_memoryview", cases, shard=300)
-    for e in errs:
-        res.mismatches.append(Mismatch(where, "coqc error", None, e))
-    for i in bad:
-        res.mismatches.append(Mismatch(where, meta[i], cases[i][1], None))
-    res.traces_validated += len(cases)
+    C17_compare(res, where, "C17_fm", IMP_LAYOUT, "obs_from_memoryview", cases, meta)
 
 
 def correspond(ctx: Ctx) -> Result:
